@@ -97,3 +97,45 @@ def _modeliso(spec, model):
     q_st = float(S.canon_p(q, rm, ru, a)) / float(S.canon_p(1.0, lab['pressure_mode'], lab['pressure_unit'], a))
     want = 2.5 * q_st  # Henry model K=2.5: Pi = K p
     return {'confirmed': not close(got, want, rel=2e-4), 'observed': got, 'expected': want}
+
+
+def stored_dtype_cases():
+    """whole-number data stored as integers (Python ints, an integer table read from a file without decimals): the spreading
+    pressure equals that of the same data stored as floats and the integral of n/p of the interpolant -- stand-in for the
+    machine number formats, which the SX obligations read as reals"""
+    import pandas
+    import pygaps
+    from scipy import integrate
+    pygaps.logger.disabled = True
+    meta = dict(material='pgv_c11', adsorbate='nitrogen', temperature=77.355, pressure_mode='absolute', pressure_unit='bar', loading_basis='molar',
+                loading_unit='mmol', material_basis='mass', material_unit='g', temperature_unit='K')
+    P, L = [1, 2, 3, 5, 8, 13], [20, 50, 90, 140, 200, 270]
+    isos = {
+        'float_lists': pygaps.PointIsotherm(pressure=[float(x) for x in P], loading=[float(x) for x in L], **meta),
+        'int_lists': pygaps.PointIsotherm(pressure=P, loading=L, **meta),
+        'int_table': pygaps.PointIsotherm(isotherm_data=pandas.DataFrame({'pressure': P, 'loading': L}), pressure_key='pressure', loading_key='loading', **meta),
+        'int_loading_float_pressure': pygaps.PointIsotherm(pressure=[float(x) for x in P], loading=L, **meta),
+    }
+    qs = [0.5, 1.0, 1.5, 2.5, 4.0, 7.9, 13.0]
+
+    def interp(x):
+        return L[0] / P[0] * x if x <= P[0] else float(numpy.interp(x, P, L))
+    want = [integrate.quad(lambda x: interp(x) / x, 0, q, points=[v for v in P if v < q] or None, limit=200)[0] for q in qs]
+    for k, iso in isos.items():
+        probs = []
+        for q, w in zip(qs, want):
+            try:
+                got = float(iso.spreading_pressure_at(q))
+                if not close(got, w, rel=1e-7):
+                    probs.append(f"Pi({q}) = {got!r}, integral {w!r}")
+            except Exception as exc:
+                probs.append(f"Pi({q}): {type(exc).__name__}: {exc}"[:120])
+        yield {'name': f"stored_number_format|{k}", 'ok': not probs, 'detail': '; '.join(probs[:3])}
+
+
+@replayer('c11.dtype')
+def _dtype(spec, model):
+    for r in stored_dtype_cases():
+        if r['name'] == spec['name']:
+            return {'confirmed': not r['ok'], 'observed': r['detail'], 'expected': 'the integral of n/p of the interpolant, whatever number format the data are stored in'}
+    return {'confirmed': False, 'error': 'case not found'}
